@@ -164,6 +164,39 @@ var targets = []target{
 				Effects: []string{"buf := Kit.GoSem.writeAt buf n (65536 : Int) (R_Data src (Kit.GoSem.lenI %1))", "src := R_Step src (Kit.GoSem.lenI %1)"}},
 			"bytes.Clone": {Lean: "%1", Type: "List UInt8"},
 		}},
+	{Group: "C16", Dir: "streams", Func: "MultiReaderCloser.Close",
+		Types:  map[string]string{"[]io.Reader": "List Nat", "io.Reader": "Nat", "io.Closer": "Nat"},
+		Ghosts: []string{"(closeLog : List Nat)"},
+		ExtraParams: []string{"(R_IsCloser : Nat → Bool)"},
+		Rewrites: map[string][2]string{"r.(io.Closer)": {"(r, R_IsCloser r)", "Nat × Bool"}},
+		Externs: map[string]extern{
+			"rc.Close": {Lean: "(none : Kit.GoSem.Err)", Type: "Kit.GoSem.Err", Effects: []string{"closeLog := closeLog ++ [%r]"}},
+		}},
+	{Group: "C16", Dir: "streams", Func: "TeeReadCloser.Close", Abstract: []string{"t.r", "t.w", "t.lock"},
+		Ignore: []string{"t.lock.Lock()", "defer t.lock.Unlock()"},
+		// t.r / t.w: whether the field is nil is the ghost state; whether the object behind it implements
+		// io.Closer and what its Close returns are parameters; the Close calls are counted
+		Ghosts:      []string{"(t_rnil : Bool)", "(t_wnil : Bool)", "(rCloses : Int)", "(wCloses : Int)"},
+		ExtraParams: []string{"(R_IsCloser : Bool)", "(W_IsCloser : Bool)", "(R_CloseErr : Kit.GoSem.Err)", "(W_CloseErr : Kit.GoSem.Err)"},
+		Types:       map[string]string{"io.Closer": "Unit"},
+		Rewrites: map[string][2]string{
+			"t.r.(io.Closer)": {"((), (!t_rnil) && R_IsCloser)", "Unit × Bool"},
+			"t.w.(io.Closer)": {"((), (!t_wnil) && W_IsCloser)", "Unit × Bool"}},
+		StmtEffects: map[string][]string{"t.r = nil": {"t_rnil := true"}, "t.w = nil": {"t_wnil := true"}},
+		Externs: map[string]extern{
+			"r.Close": {Lean: "R_CloseErr", Type: "Kit.GoSem.Err", Effects: []string{"rCloses := rCloses + 1"}},
+			"w.Close": {Lean: "W_CloseErr", Type: "Kit.GoSem.Err", Effects: []string{"wCloses := wCloses + 1"}},
+		}},
+	{Group: "C16", Dir: "streams", Func: "TeeReadCloser.Stop", Abstract: []string{"t.r", "t.w", "t.lock"},
+		Ignore:      []string{"t.lock.Lock()", "defer t.lock.Unlock()"},
+		Ghosts:      []string{"(t_wnil : Bool)", "(wCloses : Int)"},
+		ExtraParams: []string{"(W_IsCloser : Bool)", "(W_CloseErr : Kit.GoSem.Err)"},
+		Types:       map[string]string{"io.Closer": "Unit"},
+		Rewrites:    map[string][2]string{"t.w.(io.Closer)": {"((), (!t_wnil) && W_IsCloser)", "Unit × Bool"}},
+		StmtEffects: map[string][]string{"t.w = nil": {"t_wnil := true"}},
+		Externs: map[string]extern{
+			"w.Close": {Lean: "W_CloseErr", Type: "Kit.GoSem.Err", Effects: []string{"wCloses := wCloses + 1"}},
+		}},
 	{Group: "C03", Dir: "crypto/padding", Func: "UnpadPKCS7"},
 	{Group: "C03", Dir: "crypto/padding", Func: "PadPKCS7", Externs: map[string]extern{
 		"bytes.Repeat": {Lean: "(List.flatten (List.replicate (%2).toNat %1))", Type: "List UInt8"},
